@@ -230,11 +230,11 @@ func (b Base) serializeParams(in any) (s string, params []any, err error) {
 		}
 		return strings.Join(strs, ", "), params, nil
 	case *expr.RangeBoundary:
-		min, minParams, err := b.serializeParams(v.Min)
+		min, minParams, err := b.serializeBoundParams(v.Min)
 		if err != nil {
 			return "", params, err
 		}
-		max, maxParams, err := b.serializeParams(v.Max)
+		max, maxParams, err := b.serializeBoundParams(v.Max)
 		if err != nil {
 			return "", params, err
 		}
@@ -257,14 +257,19 @@ func (b Base) serializeParams(in any) (s string, params []any, err error) {
 		// which might change in the future.
 		return fmt.Sprintf(`"%s"`, string(v)), params, nil
 	case string:
-		// if we have a '*' then we don't want to insert a param
-		if v == "*" {
-			return "'*'", params, nil
-		}
-
-		// escape single quotes with double single quotes
 		return "?", []any{v}, nil
 	default:
 		return "?", []any{v}, nil
 	}
+}
+
+// serializeBoundParams serializes one end of a range. An unbounded end (*) is not a value so
+// we don't want to insert a param for it.
+func (b Base) serializeBoundParams(in any) (s string, params []any, err error) {
+	if e, isExpr := in.(*expr.Expression); isExpr && e != nil {
+		if v, isStr := e.Left.(string); isStr && v == "*" {
+			return "'*'", params, nil
+		}
+	}
+	return b.serializeParams(in)
 }
